@@ -12,12 +12,19 @@ def run(ctx):
             "MaxDepth": 5 if not big else 6, "MaxPaths": 3}
     designs = [("design", dict(base, MaxDepth=99, Pols={"accept"}), ro.PFX1)]
     runs = [("gen 1 prefix", base, ro.PFX1),
-            ("gen 2 prefixes", dict(base, Names={"e1", "e2", "i1"}, MaxDepth=4, Pols={"accept"}), ro.PFX2)]
+            ("gen 2 prefixes", dict(base, Names={"e1", "e2", "i1"}, MaxDepth=4, Pols={"accept"}), ro.PFX2),
+            # export policies that rewrite what the session itself rewrites (next hop, AS_PATH): a withdrawal has to find the stored form
+            ("gen rewriting policies", dict(base, Names={"e1", "i1"}, Sessions={"ebgp", "ebgpRS", "ibgpRR", "ebgpAP"},
+                                            Pols={"accept", "setnh", "prep", "prep2"}, MaxDepth=4), ro.PFX1),
+            # RFC 9234 roles: routes with and without OTC towards every remote role
+            ("gen roles", dict(base, Names={"e1", "ot"}, Sessions={"toCustomer", "toPeer", "toProvider", "toRS", "toRSClient"}, Pols={"accept"},
+                               MaxDepth=4), ro.PFX1)]
     sims = [("sim", dict(base, Names={"e1", "e2", "e3", "i1", "i2", "st", "ne", "bk"}, Pols={"accept", "setmed", "rej01", "prep"}, MaxPaths=4),
              ro.PFX2, 3000 if big else 400, 14)]
     ctx.rule = ("one witness per transition of the RibOut graph: Loc-RIB histories (eBGP/iBGP-learned, equal-cost, static paths; "
-                "best-path changes, ECMP changes, withdrawals) x session kinds eBGP, eBGP RS-client, iBGP, iBGP RR-client x add-path "
-                "send best/2/3 x export policies, with session down/up, sub-sampled by VERIF_SEED, plus seeded random behaviours; after "
+                "best-path changes, ECMP changes, withdrawals) x session kinds eBGP, eBGP RS-client, iBGP, iBGP RR-client, the five RFC 9234 "
+                "remote roles (routes with and without OTC) x add-path "
+                "send best/2/3 x export policies (accept, MED, next hop, prepend), with session down/up, sub-sampled by VERIF_SEED, plus seeded random behaviours; after "
                 "every step the real Adj-RIB-Out (per prefix, wire-visible attributes), its route count, the path identifiers and what "
                 "its client has been told are compared with ExportView; non-trivial = the Adj-RIB-Out is non-empty at some step after a "
                 "removal or best-path change")
